@@ -93,6 +93,15 @@ fn gen_project(rng: &mut Rng, fenced: &BTreeSet<String>, builtins: &BTreeSet<Str
                     let ci = *g.rng.pick(&foreign);
                     let l = g.use_line(ci);
                     g.out.push_str(&l);
+                    // sometimes with an import line for the class (the import only registers a
+                    // placeholder; the definition in the other file must win whatever the order)
+                    if g.rng.chance(1, 3) {
+                        let cname = g.classes[ci].name.clone();
+                        let module = g.class_file.get(ci).and_then(|f| paths.get(*f)).map(|p| std::path::Path::new(p).file_stem().unwrap().to_string_lossy().into_owned()).unwrap_or_else(|| "other".into());
+                        let module: String = module.chars().map(|c| if c.is_ascii_alphanumeric() { c } else { '_' }).collect();
+                        let module = if module.chars().next().map(|c| c.is_ascii_digit()).unwrap_or(true) { format!("m{module}") } else { module };
+                        g.out = format!("from {module} import {cname}\n{}", g.out);
+                    }
                 }
                 let feats = corpus::features_of(&[SrcFile { path: p.clone(), text: g.out.clone() }], builtins);
                 if !feats.iter().any(|f| fenced.contains(f)) {
@@ -124,6 +133,26 @@ fn gen_project(rng: &mut Rng, fenced: &BTreeSet<String>, builtins: &BTreeSet<Str
             files.push(SrcFile { path: p.clone(), text });
             let xf = g.cross_fault_line(&prefix);
             xfaults.push(xf);
+        }
+    }
+    // sometimes a class whose parents live in two OTHER files and define a member of the same
+    // name (different types), used through the child: which parent wins must not depend on the
+    // order in which the files are presented
+    if files.len() >= 3 && rng.chance(1, 4) {
+        let mut idx: Vec<usize> = (0..files.len()).collect();
+        rng.shuffle(&mut idx);
+        let (a, b, c) = (idx[0], idx[1], idx[2]);
+        if !files[a].text.is_empty() && !files[b].text.is_empty() && !files[c].text.is_empty() && !files[a].text.contains('\r') && !files[b].text.contains('\r') && !files[c].text.contains('\r') {
+            let (n1, n2) = if rng.chance(1, 2) { ("XpSwimmer", "XpWalker") } else { ("XpWalker", "XpSwimmer") };
+            let nl = |t: &str| if t.ends_with('\n') { "" } else { "\n" };
+            let ta = format!("{}{}\nclass {n1}\n    def xpdepth: Int := 2\n    def xpspeed(self) -> Int => 3\n    def xpdescribe(self) -> Str => \"swims\"\n", files[a].text, nl(&files[a].text));
+            let tb = format!("{}{}\nclass {n2}\n    def xpspeed(self) -> Float => 1.5\n    def xpdescribe(self) -> Str => \"walks\"\n", files[b].text, nl(&files[b].text));
+            let parents = if rng.chance(1, 2) { format!("{n1}, {n2}") } else { format!("{n2}, {n1}") };
+            let typed = if rng.chance(1, 2) { "def xpfast: Int := xpg.xpspeed()\n" } else { "" };
+            let tc = format!("{}{}\nclass XpFrog: {parents}\n    def xpname: Str := \"frog\"\n\ndef xpg := XpFrog()\ndef xps := xpg.xpspeed()\ndef xpd := xpg.xpdescribe()\n{typed}", files[c].text, nl(&files[c].text));
+            files[a].text = ta;
+            files[b].text = tb;
+            files[c].text = tc;
         }
     }
     let mut bystanders = vec![];
